@@ -8,6 +8,8 @@ The oracle (`oracle_*`) is written from the property statement: it looks only at
 and the charsets in force, never at cherrypy; urllib.parse.parse_qsl is consulted as a second opinion.
 """
 import codecs
+import copy
+import hashlib
 import io
 import itertools
 import json
@@ -97,7 +99,10 @@ RULE = ('multimaps (0-8 pairs over 1-4 keys, texts of 0-20 characters drawn from
         'controls / Latin-1 / BMP / astral planes) x per-character encoding style (literal, %XX with per-digit hex case, '
         '+ or %20) x separators & ; (and empty pairs) x split between query string and body x body charset scenario '
         '(declared, default, configured fallbacks, declared-but-wrong, undecodable) x query_string_encoding; plus '
-        'image-map shapes, exhaustive strings over {a % 2 6 + & = ;} and every %X / %XY item; a case is non-trivial '
+        'image-map shapes, exhaustive strings over {a % 2 6 + & = ;} and every %X / %XY item; plus HISTORIES of 2-6 '
+        'requests against one long-lived application that re-use each other\'s query strings / bodies / keys (list-valued '
+        'query key merged with body values, then the same query again; image map; refused then accepted bytes), every '
+        'request judged stand-alone, with a handler that scribbles over every mutable it receives; a case is non-trivial '
         'when its wire form contains at least one of % + or a non-ASCII byte, or a repeated key, or parameters on '
         'both sides; distinct = distinct (query bytes, body bytes, configuration)')
 
@@ -201,6 +206,7 @@ def parse_params(s):
 # ----------------------------------------------------------------------------------------------
 # real-code runner
 # ----------------------------------------------------------------------------------------------
+POISON = '\x00leaked-from-an-earlier-request'
 _apps = {}
 _seen = {'calls': 0, 'kwargs': None, 'attempts': None}
 _cp = []
@@ -221,8 +227,18 @@ def _get_app(qs_enc, attempt_cfg):
         class Root(object):
             def index(*args, **kwargs):
                 _seen['calls'] += 1
-                _seen['kwargs'] = kwargs
+                _seen['kwargs'] = copy.deepcopy(kwargs)
                 _seen['attempts'] = list(cherrypy.request.body.attempt_charsets)
+                # A handler may do what it likes with its arguments.  Scribble over every mutable object this
+                # request handed out, so that anything a parsing helper shares with a LATER request shows up
+                # there as a foreign value (what a request's handler receives must depend on that request only).
+                for d in (kwargs, cherrypy.request.params, cherrypy.request.body.params,
+                          cherrypy.request.body.request_params):
+                    if isinstance(d, dict):
+                        for v in list(d.values()):
+                            if isinstance(v, list):
+                                v.append(POISON)
+                        d[POISON] = POISON
                 return b'ok'
             index.exposed = True
         conf = {}
@@ -776,6 +792,226 @@ def gen_huge(rng):
     return case
 
 
+# ---- histories: several requests against one long-lived application ---------------------------
+def _req(q, body=None, declared=None, method=None, qs_cfg=None, att_cfg=None, role=''):
+    return {'kind': 'req', 'q': q.hex(), 'qs_enc': qs_cfg, 'method': method or ('GET' if body is None else 'POST'),
+            'b': None if body is None else body.hex(), 'declared': declared, 'attempt_cfg': att_cfg,
+            'scenario': 'history', 'role': role, 'qfrags': [], 'bfrags': []}
+
+
+def gen_history(rng):
+    """2-6 requests that re-use each other's query strings, bodies and keys, all against the same application:
+    whatever a parsing helper returns for one request (dicts, lists) must not reach a later one.  The building
+    blocks: a query whose key is repeated (list value) and also occurs in the body (so the merge mutates the
+    list), the same query without / with another body, the same body behind another query, an image-map query,
+    the same non-UTF-8 body bytes first refused (utf-8 only) then accepted (declared latin-1)."""
+    qs_cfg = rng.choices([None, 'latin-1'], weights=[85, 15])[0]
+    att_cfg = rng.choices([None, ['ascii', 'utf-8']], weights=[85, 15])[0]
+    qenc = qs_cfg or 'utf8'
+    prof = 'full' if qs_cfg is None else 'latin'
+    style = rng.choice(['minimal', 'mixed', 'full'])
+    hexcase = rng.choice(['upper', 'lower', 'mixed'])
+    k0 = gen_text(rng, rng.choice(['ascii', prof])) or 'tag'
+    k1 = gen_text(rng, 'ascii') or 'k'
+    if rng.random() < 0.5:
+        k0 = rng.choice(['tag', 'a', 'x', 'y', 'id'])
+
+    def qpair(k, v):
+        return enc_query_text(rng, k, qenc, style, hexcase, qs_cfg is None) + b'=' + \
+            enc_query_text(rng, v, qenc, style, hexcase, qs_cfg is None)
+
+    def bpair(k, v, cs='utf-8'):
+        return enc_body_bytes(rng, k.encode(cs), style, hexcase) + b'=' + enc_body_bytes(rng, v.encode(cs), style, hexcase)
+
+    def vals(n):
+        return [gen_text(rng, prof) for _ in range(n)]
+
+    sep = lambda: rng.choice([b'&', b'&', b';'])
+    # queries
+    q_list = sep().join([qpair(k0, v) for v in vals(rng.choice([2, 2, 3]))] +
+                        ([qpair(k1, vals(1)[0])] if rng.random() < 0.5 else []))   # k0 is a list
+    q_scalar = qpair(k0, vals(1)[0])                                                 # k0 is a scalar
+    q_other = sep().join(qpair(k1, v) for v in vals(rng.choice([1, 2])))             # k0 absent
+    q_img = b'%d,%d' % (rng.choice([0, 1, 12, 640]), rng.choice([0, 2, 480]))
+    # bodies
+    b_same = sep().join(bpair(k0, v) for v in vals(rng.choice([1, 1, 2])))           # k0 again: merge mutates
+    b_more = sep().join([bpair(k0, vals(1)[0]), bpair(k1, vals(1)[0]), bpair(k1, vals(1)[0])])
+    b_other = sep().join(bpair(k1, v) for v in vals(rng.choice([1, 2])))
+    b_xy = rng.choice([b'x=5', b'y=1&y=2', b'x=1&x=2&y=3'])
+    l1 = ''.join(rng.choice('\xe9\xff\xa0\xc3\xb5') for _ in range(rng.randint(1, 3)))
+    b_l1 = bpair(k0 if k0.isascii() else 'k', l1 + 'z', 'latin-1')                   # not UTF-8 (ends in "<hi>z")
+    Q = {'list': q_list, 'scalar': q_scalar, 'other': q_other, 'img': q_img, 'none': b''}
+    B = {'same': (b_same, None), 'more': (b_more, None), 'other': (b_other, None), 'xy': (b_xy, None),
+         'l1-refused': (b_l1, None), 'l1-declared': (b_l1, 'latin-1'), 'l1-utf8-declared': (b_l1, 'utf-8'),
+         'none': (None, None)}
+    templates = [
+        [('list', 'same'), ('list', 'none'), ('list', 'more'), ('list', 'none')],
+        [('list', 'none'), ('list', 'same'), ('list', 'none'), ('list', 'same'), ('list', 'none')],
+        [('list', 'same'), ('list', 'same'), ('list', 'none')],
+        [('list', 'same'), ('scalar', 'same'), ('scalar', 'none'), ('list', 'none')],
+        [('scalar', 'same'), ('scalar', 'none'), ('scalar', 'more'), ('scalar', 'same')],
+        [('other', 'same'), ('list', 'same'), ('other', 'same'), ('none', 'same')],
+        [('none', 'more'), ('list', 'more'), ('none', 'more'), ('other', 'more')],
+        [('img', 'xy'), ('img', 'none'), ('img', 'xy'), ('img', 'same')],
+        [('list', 'l1-refused'), ('list', 'l1-declared'), ('list', 'none'), ('list', 'l1-refused'),
+         ('list', 'l1-utf8-declared')],
+        [('none', 'l1-refused'), ('none', 'l1-declared'), ('none', 'l1-refused'), ('none', 'l1-declared')],
+    ]
+    if rng.random() < 0.7:
+        plan = list(rng.choice(templates))
+        if rng.random() < 0.3:
+            plan = plan[:rng.randint(2, len(plan))]
+    else:
+        plan = [(rng.choice(['list', 'list', 'scalar', 'other', 'img', 'none']),
+                 rng.choice(['same', 'same', 'more', 'other', 'xy', 'l1-refused', 'l1-declared', 'none', 'none']))
+                for _ in range(rng.randint(2, 6))]
+    steps = []
+    for qn, bn in plan[:6]:
+        body, declared = B[bn]
+        if declared is not None and rng.random() < 0.3:
+            declared = rng.choice(NAMES[declared])
+        steps.append(_req(Q[qn], body, declared, rng.choice(['POST', 'POST', 'PUT']) if body is not None else 'GET',
+                          qs_cfg, att_cfg, role='%s+%s' % (qn, bn)))
+    return {'kind': 'history', 'steps': steps}
+
+
+def history_id(hist):
+    return hashlib.sha1('>'.join(case_key(s) for s in hist['steps']).encode('utf-8', 'replace')).hexdigest()[:16]
+
+
+def run_history(hist):
+    """Run the steps in order; per step (obs, failures, expected)."""
+    out = []
+    for step in hist['steps']:
+        obs = run_real(step)
+        bad, exp = judge(step, obs)
+        out.append((obs, bad, exp))
+    return out
+
+
+def fresh_failures(steps):
+    """Run `steps` in order in a FRESH interpreter (no state left by this run) -> per step the list of failure
+    signatures.  Used only to make reported replays reproducible; ~0.5 s per call."""
+    import subprocess
+    import sys
+    payload = json.dumps({'steps': steps})
+    r = subprocess.run([sys.executable, '-m', 'harness.c03', '--fresh'], cwd=common.VERIF, input=payload.encode(),
+                       stdout=subprocess.PIPE, stderr=subprocess.PIPE, timeout=600)
+    if r.returncode != 0:
+        raise common.HarnessError('fresh-process helper failed: %s' % r.stderr[-400:])
+    last = [l for l in r.stdout.decode().splitlines() if l.startswith('FRESH ')]
+    if not last:
+        raise common.HarnessError('fresh-process helper printed nothing')
+    return json.loads(last[-1][6:])
+
+
+def _fresh_main():
+    steps = json.loads(sys_stdin_read())['steps']
+    out = []
+    for step in steps:
+        try:
+            bad, _ = judge(step, run_real(step))
+            out.append([sig for _, sig in bad])
+        except common.HarnessError as e:
+            out.append(['harness:' + str(e)[:80]])
+    print('FRESH ' + json.dumps(out))
+
+
+def sys_stdin_read():
+    import sys
+    return sys.stdin.read()
+
+
+def minimal_history(before, target, sig, budget=30):
+    """Smallest sub-sequence of `before` after which `target` still fails with `sig` IN A FRESH PROCESS
+    (so that the replay file reproduces on its own).  Returns (steps, note)."""
+    calls = [0]
+
+    def fails(prefix):
+        calls[0] += 1
+        if calls[0] > budget:
+            return False
+        try:
+            res = fresh_failures(list(prefix) + [target])
+        except common.HarnessError:
+            return False
+        return sig in res[-1]
+
+    if fails([]):
+        return [target], 'fails as a single request on fresh state'
+    before = list(before)
+    if not before or not fails(before):
+        return None, 'not reproduced in a fresh process from the recorded predecessors'
+    if len(before) > 6:
+        before = common.shrink_list(before, fails, max_rounds=12)
+    i = 0
+    while i < len(before):
+        cand = before[:i] + before[i + 1:]
+        if fails(cand):
+            before = cand
+        else:
+            i += 1
+    return before + [target], 'request %d fails only after the requests before it' % (len(before) + 1)
+
+
+def shrink_history(hist, idx, sig, earlier=()):
+    """A self-contained history (reproducible on fresh state) ending in the failing request."""
+    target = hist['steps'][idx]
+    steps, note = minimal_history(hist['steps'][:idx], target, sig)
+    if steps is None and earlier:
+        steps, note = minimal_history(list(earlier)[-40:] + hist['steps'][:idx], target, sig)
+    if steps is None:
+        return dict(hist, failed_step=idx, note=note)
+    return {'kind': 'history', 'steps': steps, 'failed_step': len(steps) - 1, 'note': note}
+
+
+def check_histories(ctx, hists, compare=True, echo=False, minimise=True):
+    """Every request of every history is judged exactly like a stand-alone request (the expectation is computed
+    from that request alone) and compared with the (stateless) model."""
+    flat = [s for h in hists for s in h['steps']]
+    lines = ctx.model([model_line(s) for s in flat]) if compare else None
+    pos = 0
+    earlier = []
+    for hist in hists:
+        hid = history_id(hist)
+        res = run_history(hist)
+        ctx.count('history_len:%d' % len(hist['steps']))
+        for i, (step, (obs, bad, exp)) in enumerate(zip(hist['steps'], res)):
+            ctx.case({'kind': 'history-step', 'history': hid, 'step': i, 'role': step.get('role'),
+                      'q': step['q'], 'b': step.get('b')}, nontrivial=(i > 0), key='hist|%s|%d' % (hid, i))
+            ctx.count('history_step:' + str(step.get('role')))
+            ctx.count('history_status:%d' % obs['status'])
+            if echo:
+                print('--- request %d (%s): %s ?%s  body %s  declared %s' % (
+                    i + 1, step.get('role'), step['method'], bytes.fromhex(step['q']),
+                    None if step.get('b') is None else bytes.fromhex(step['b']), step.get('declared')))
+                print('impl   :', {'status': obs['status'], 'kw': obs['kw']})
+                if lines is not None:
+                    print('model  :', canon_model(lines[pos + i]))
+                print('oracle :', exp)
+            done = set()
+            for what, sig in bad:
+                if sig in done:
+                    continue
+                done.add(sig)
+                small = (shrink_history(hist, i, sig, earlier) if minimise and len(ctx.oracle_failures) < 2
+                         else dict(hist, failed_step=i))
+                n = len(small['steps'])
+                ctx.oracle_fail(small, 'request %d of a %d-request history (%s; %s): %s'
+                                % (small.get('failed_step', n - 1) + 1, n,
+                                   ' -> '.join(str(s.get('role')) for s in small['steps']), small.get('note', ''),
+                                   what), None)
+            if lines is not None:
+                ctx.compared()
+                model = canon_model(lines[pos + i])
+                real = {'status': obs['status'], 'kw': obs['kw'] if obs['status'] == 200 else None}
+                if real != model:
+                    ctx.disagree(dict(hist, failed_step=i), real, model,
+                                 'handler arguments / status differ at request %d of a history' % (i + 1))
+        pos += len(hist['steps'])
+        earlier = (earlier + hist['steps'])[-40:]
+
+
 def nontrivial(case):
     q = bytes.fromhex(case['q'])
     b = bytes.fromhex(case['b']) if case.get('b') else b''
@@ -858,10 +1094,21 @@ def check_requests(ctx, cases, compare=True):
             if sig in done:
                 continue
             done.add(sig)
-            if len(ctx.oracle_failures) < 3:
-                small = shrink(case, sig)
-                again = [w for w, s2 in judge(small, run_real(small))[0] if s2 == sig]
-                what = again[0] if again else what
+            if len(ctx.oracle_failures) < 2:
+                if sig in fresh_failures([slim(case)])[0]:
+                    small = shrink(case, sig)
+                    again = [w for w, s2 in judge(small, run_real(small))[0] if s2 == sig]
+                    what = again[0] if again else what
+                else:
+                    # the request alone is fine on fresh state: it is what earlier requests left behind
+                    steps, note = minimal_history([slim(c) for c in cases[max(0, idx - 40):idx]], slim(case), sig)
+                    if steps is not None:
+                        ctx.oracle_fail({'kind': 'history', 'steps': steps, 'failed_step': len(steps) - 1, 'note': note},
+                                        'request %d of a %d-request history (%s): %s' % (len(steps), len(steps), note, what),
+                                        None)
+                        continue
+                    what = '[depends on state left by earlier requests of this run] ' + what
+                    small = case
             else:
                 small = case
             ctx.oracle_fail(slim(small), what, None)
@@ -1072,7 +1319,7 @@ def check_codecs(ctx, n):
 
 
 # ----------------------------------------------------------------------------------------------
-def corpus_cases():
+def _corpus():
     d = os.path.join(common.CORPUS, PROPERTY)
     out = []
     if os.path.isdir(d):
@@ -1080,6 +1327,14 @@ def corpus_cases():
             if f.endswith('.json'):
                 out.append(json.load(open(os.path.join(d, f))))
     return out
+
+
+def corpus_cases():
+    return [c for c in _corpus() if c.get('kind', 'req') != 'history']
+
+
+def corpus_histories():
+    return [c for c in _corpus() if c.get('kind') == 'history']
 
 
 def witness_case(w):
@@ -1105,6 +1360,21 @@ def gen_mixed(rng, n):
             out.append(gen_imagemap(rng))
         else:
             out.append(gen_raw(rng))
+        # re-use: an earlier request again, its query alone, or its query with another request's body
+        if rng.random() < 0.08:
+            old = rng.choice(out[-50:])
+            if old.get('kind') == 'req' and len(old['q']) + len(old.get('b') or '') < 4000:
+                new = {k: v for k, v in old.items() if k != 'truth'}
+                how = rng.choice(['again', 'query-only', 'other-body'])
+                if how == 'query-only':
+                    new.update(b=None, method='GET', declared=None, bfrags=[])
+                elif how == 'other-body':
+                    other = rng.choice(out[-50:])
+                    if other.get('b') is not None and other.get('attempt_cfg') == old.get('attempt_cfg'):
+                        new.update(b=other['b'], method='POST', declared=other.get('declared'),
+                                   bfrags=list(other.get('bfrags') or []), ctype_style=other.get('ctype_style', 'plain'))
+                new['scenario'] = 'reuse-' + how
+                out.append(new)
     return out
 
 
@@ -1128,6 +1398,7 @@ def _worker(args):
     ctx.rng = random.Random(seed)
     ctx.lean = types.SimpleNamespace(driver_ok=True, ok=True)
     check_requests(ctx, gen_mixed(ctx.rng, n))
+    check_histories(ctx, [gen_history(ctx.rng) for _ in range(max(1, n // 8))])
     return {'evaluations': ctx.evaluations, 'nontrivial': list(ctx._nontrivial), 'hist': ctx.hist,
             'oracle_failures': ctx.oracle_failures[:3], 'disagreements': ctx.disagreements[:3],
             'compared': ctx.disagreements_checked, 'samples': ctx.samples[:2], 'lines': ctx.driver.lines}
@@ -1148,8 +1419,11 @@ def run(ctx):
                                            '(units; also over {%% c 3 a 9 = &} up to length 4 quick / 6 thorough), length <= %d through WSGI; '
                                            'all %%X / %%XY items'
                                            % (ctx.budget(5, 6), ctx.budget(3, 4)))
+    check_histories(ctx, corpus_histories())
     if ctx.quick():
+        check_histories(ctx, [gen_history(ctx.rng) for _ in range(700)])
         check_requests(ctx, gen_mixed(ctx.rng, 5000))
+        check_histories(ctx, [gen_history(ctx.rng) for _ in range(300)])
     else:
         jobs = [(ctx.rng.getrandbits(48), 12500, ctx.tier) for _ in range(24)]
         for res in common.parallel_map(_worker, jobs):
@@ -1173,12 +1447,16 @@ def search(ctx, around=None):
     if not ctx.oracle_failures:
         check_requests(ctx, list(small_requests(3)), compare=False)
     if not ctx.oracle_failures:
+        check_histories(ctx, [gen_history(ctx.rng) for _ in range(3000)], compare=False)
+    if not ctx.oracle_failures:
         check_requests(ctx, gen_mixed(ctx.rng, 12000), compare=False)
 
 
 def replay(ctx, case):
     kind = case.get('kind', 'req')
-    if kind == 'req':
+    if kind == 'history':
+        check_histories(ctx, [{'kind': 'history', 'steps': case['steps']}], echo=True, minimise=False)
+    elif kind == 'req':
         obs = run_real(case)
         print('query  :', bytes.fromhex(case['q']))
         if case.get('b') is not None:
@@ -1202,3 +1480,9 @@ def replay(ctx, case):
         check_pct_items(ctx)
     else:
         check_codecs(ctx, 200)
+
+
+if __name__ == '__main__':
+    import sys
+    if '--fresh' in sys.argv:
+        _fresh_main()
